@@ -515,6 +515,37 @@ func random(w *tr.W, r *rng.R, cases int, mode string) {
 	}
 }
 
+// big: a few large sets (hundreds of members, slices grown through many reallocations and
+// shrunk by in-place removals), then algebra and comparisons between them.
+func big(w *tr.W, r *rng.R, cases int, mode string) {
+	for c := 0; c < cases; c++ {
+		dir := "asc"
+		if r.Bool() {
+			dir = "rev"
+		}
+		u := r.Range(200, 1200)
+		ops := []string{"new " + kinds[r.Intn(3)], "new " + kinds[r.Intn(3)], "new " + kinds[r.Intn(3)]}
+		n := r.Range(120, 420)
+		for i := 0; i < n; i++ {
+			o := r.Intn(3)
+			switch x := r.Intn(10); {
+			case x < 6:
+				ops = append(ops, fmt.Sprintf("add %d %d", o, r.Intn(u)))
+			case x < 7:
+				ops = append(ops, fmt.Sprintf("add %d %d %d %d %d", o, r.Intn(u), r.Intn(u), r.Intn(u), r.Intn(u)))
+			case x < 9:
+				ops = append(ops, fmt.Sprintf("rem %d %d", o, r.Intn(u)))
+			default:
+				ops = append(ops, fmt.Sprintf("has %d %d %d", o, r.Intn(u), r.Intn(u)), fmt.Sprintf("size %d", o))
+			}
+		}
+		ops = append(ops, "snap", "uni 0 1 2", "int 0 1", "dif 0 1 2", "int 1 2 0", "snap", "alias",
+			"eq 0 1", "sub 4 0", "sup 0 5", "sub 0 3", "eq 3 3", "clone 3", "rem 7 0 1 2 3 4 5", "eq 3 7", "sub 7 3", "snap", "alias",
+			fmt.Sprintf("sel 3 lt%d", u/2), fmt.Sprintf("par 0 lt%d", u/3), "snap", "alias")
+		runCase(w, mode+" "+dir, ops)
+	}
+}
+
 // power: Powerset for n <= maxPow and Partitions for n <= maxPart, on sets built with and without
 // spare capacity, the operand re-read afterwards.
 func power(w *tr.W, r *rng.R, maxPow, maxPart int, mode string, reps int) {
@@ -607,8 +638,10 @@ func main() {
 		r := rng.FromEnv(16)
 		if thorough {
 			random(w, r, 40000, "det")
+			big(w, r, 400, "det")
 		} else {
 			random(w, r, 3000, "det")
+			big(w, r, 40, "det")
 		}
 	case "power":
 		r := rng.FromEnv(1616)
@@ -624,6 +657,7 @@ func main() {
 			power(w, r, 7, 6, "free", 2)
 		} else {
 			random(w, r, 800, "free")
+			big(w, r, 10, "free")
 			power(w, r, 6, 5, "free", 1)
 		}
 	}
